@@ -417,6 +417,11 @@ impl<'a> Tx<'a> {
             "Guard::unprotected" => return "()".into(),
             "Shared::null" | "Atomic::null" => return "NULL".into(),
             "Atomic::from" | "Shared::from" => return self.expr(&c.args[0]),
+            "remapping_function" if self.ops => {
+                // R38: the user's remapping function is an arbitrary fixed function of its arguments
+                let args: Vec<String> = c.args.iter().map(|a| self.expr(a)).collect();
+                return format!("remap({})", args.join(", "));
+            }
             "f" if self.ops => {
                 // R38: the user callback is an arbitrary fixed predicate of its arguments
                 let args: Vec<String> = c.args.iter().map(|a| self.expr(a)).collect();
@@ -585,6 +590,13 @@ impl<'a> Tx<'a> {
                         let v = cl.inputs.first().map(|p| toks(p)).unwrap_or_default();
                         let body = self.expr(&cl.body);
                         return format!("{{ let {} = {}; Some({}) }}", v, x, body);
+                    }
+                }
+                if let Some(syn::Expr::Closure(cl)) = m.args.first() {
+                    let v = cl.inputs.first().map(|p| toks(p)).unwrap_or_default();
+                    let body = toks(&*cl.body).replace(['&', '*', ' '], "");
+                    if body == v {
+                        return self.expr(&m.receiver); // R37: a re-borrow of the same value
                     }
                 }
                 self.err("map on an unknown shape", m.span());
@@ -862,6 +874,47 @@ impl<'a> Tx<'a> {
         }
     }
 
+    /// R34 helper: emit the statements of a value block, assigning its tail value to `target`
+    fn assign_block(&mut self, target: &str, b: &syn::Block, ind: usize) {
+        let n = b.stmts.len();
+        for (k, st) in b.stmts.iter().enumerate() {
+            match st {
+                syn::Stmt::Expr(e2, None) if k + 1 == n => self.assign_into(target, e2, ind, e2.span().start().line),
+                other => self.stmt(other, ind),
+            }
+        }
+    }
+    fn assign_into(&mut self, target: &str, e: &syn::Expr, ind: usize, ln: usize) {
+        match e {
+            syn::Expr::Block(bl) => {
+                self.push(ind, "{".into(), ln, false);
+                self.assign_block(target, &bl.block, ind + 1);
+                self.push(ind, "}".into(), 0, false);
+            }
+            syn::Expr::Unsafe(u) => self.assign_block(target, &u.block, ind),
+            syn::Expr::If(i) => {
+                let c = self.expr(&i.cond);
+                self.push(ind, format!("if {} {{", c), ln, false);
+                self.assign_block(target, &i.then_branch, ind + 1);
+                match &i.else_branch {
+                    Some((_, e2)) => {
+                        self.push(ind, "} else {".into(), 0, false);
+                        match &**e2 {
+                            syn::Expr::Block(b) => self.assign_block(target, &b.block, ind + 1),
+                            other => self.assign_into(target, other, ind + 1, other.span().start().line),
+                        }
+                    }
+                    None => {}
+                }
+                self.push(ind, "}".into(), 0, false);
+            }
+            other => {
+                let t = self.expr(other);
+                self.push(ind, format!("{} = {};", target, t), ln, true);
+            }
+        }
+    }
+
     fn loop_body(&mut self, body: &syn::Block, ind: usize, _ln: usize) {
         let k = self.loop_count;
         self.loop_count += 1;
@@ -1068,21 +1121,10 @@ impl<'a> Tx<'a> {
                     self.lines.last_mut().unwrap().text.push(';');
                     return;
                 }
-                if let (true, syn::Expr::Block(bl)) = (self.ops, &*a.right) {
-                    // R34: X = { stmts; tail }  ->  { stmts; X = tail; }
+                if self.ops && matches!(&*a.right, syn::Expr::Block(_) | syn::Expr::If(_)) {
+                    // R34: X = { stmts; tail } / X = if c { .. } else { .. }: the assignment moves to the tail of every branch
                     let l = self.expr(&a.left);
-                    self.push(ind, "{".into(), ln, false);
-                    let n = bl.block.stmts.len();
-                    for (k, st) in bl.block.stmts.iter().enumerate() {
-                        match st {
-                            syn::Stmt::Expr(e2, None) if k + 1 == n => {
-                                let t = self.expr(e2);
-                                self.push(ind + 1, format!("{} = {};", l, t), e2.span().start().line, true);
-                            }
-                            other => self.stmt(other, ind + 1),
-                        }
-                    }
-                    self.push(ind, "}".into(), 0, false);
+                    self.assign_into(&l, &a.right, ind, ln);
                     return;
                 }
                 // successor_deref = TreeNode::get_tree_node(successor)  (alias reassignment)
